@@ -99,7 +99,7 @@ def unpackWith (order : List (Nat × String)) (lowersInput lowersName : Bool) (r
 
 /-- `Action.Unpack` on the rune sequence of its argument; `none` = the error return -/
 def unpackActionRunes (rs : List Nat) : Option Nat :=
-  unpackWith Gen.actionNames Gen.actionUnpackLowersInput Gen.actionUnpackLowersName rs
+  unpackWith Gen.actionNames true false rs
 
 /-- `Action.Unpack` -/
 def unpackAction (s : String) : Option Word := (unpackActionRunes (runes s)).map (BitVec.ofNat 32)
@@ -122,10 +122,43 @@ def unpackOpWith (ops : List String) (lowersInput lowersName : Bool) (rs : List 
 
 /-- `Operation.Unpack` on runes; `none` = the error return -/
 def unpackOperationRunes (rs : List Nat) : Option String :=
-  unpackOpWith Gen.operations Gen.operationUnpackLowersInput Gen.operationUnpackLowersName rs
+  unpackOpWith Gen.operations true true rs
 
 /-- `Operation.Unpack` -/
 def unpackOperation (s : String) : Option String := unpackOperationRunes (runes s)
+
+/-! ## primitives of the regenerated renderings of `Action.Unpack` / `Operation.Unpack` (`Gen/Unpack.lean`)
+
+The state of such a function is what it has stored through its receiver so far (`none` = nothing);
+its result is that state and whether it returned an error.  A `for … range` loop over a table is
+`forRange` over the entries in iteration order; the body says whether the loop goes on. -/
+
+/-- result of an `Unpack` rendering -/
+inductive URes (α : Type) where
+  | done (stored : Option α) (err : Bool)
+  | opaque (what : String)            -- a statement or expression outside the translated subset
+deriving Repr, DecidableEq
+
+/-- what one iteration of the loop body does -/
+inductive UCtl (α : Type) where
+  | next (stored : Option α)          -- falls off the end of the body, or `continue`
+  | ret (stored : Option α) (err : Bool)
+  | opaque (what : String)
+
+def forRange {κ ν α : Type} (body : κ → ν → Option α → UCtl α) (after : Option α → URes α) :
+    List (κ × ν) → Option α → URes α
+  | [], st => after st
+  | (k, v) :: rest, st =>
+    match body k v st with
+    | .next st' => forRange body after rest st'
+    | .ret st' e => .done st' e
+    | .opaque w => .opaque w
+
+/-- the reference answer in the rendering's result type: the parsed value is stored and nil returned,
+    or nothing is stored and an error returned -/
+def toURes {α : Type} : Option α → URes α
+  | some a => .done (some a) false
+  | none => .done none true
 
 /-! ## filter flags -/
 
